@@ -212,6 +212,9 @@ _RD: Dict[int, ReachingDefs] = {}
 
 
 def reaching(cfg: CFG) -> ReachingDefs:
-    if id(cfg) not in _RD:
-        _RD[id(cfg)] = ReachingDefs(cfg)
-    return _RD[id(cfg)]
+    # stored on the CFG object itself: an id()-keyed table could serve a collected CFG's
+    # analysis to a new CFG that was given the same address
+    rd = cfg.__dict__.get("_reaching")
+    if rd is None:
+        rd = cfg.__dict__["_reaching"] = ReachingDefs(cfg)
+    return rd
